@@ -251,7 +251,13 @@ def phase_gen(maxn, seed):
     sites = sites[:maxn]
     json.dump(sites, open(os.path.join(OUT, "mutants.json"), "w"), indent=0)
     results = []
-    nw = 14
+    p1 = os.path.join(OUT, "phase1.json")
+    if os.path.exists(p1):
+        results = json.load(open(p1))
+        have = {(m["file"], m["k"]) for m in results}
+        sites = [m for m in sites if (m["file"], m["k"]) not in have]
+        print("resuming: %d already judged, %d to go" % (len(results), len(sites)), flush=True)
+    nw = int(os.environ.get("AUTOMUT_WORKERS", "12"))
     with cf.ThreadPoolExecutor(nw) as ex:
         # one slot per worker thread
         import threading
@@ -267,8 +273,10 @@ def phase_gen(maxn, seed):
         for i, (m, verdict) in enumerate(ex.map(job, sites)):
             m["suite"] = verdict
             results.append(m)
-            if i % 50 == 0:
+            if i % 25 == 0:
                 print(i, "done", flush=True)
+                json.dump(results, open(p1, "w"), indent=0)
+                json.dump([x for x in results if x["suite"] == "survives"], open(os.path.join(OUT, "survivors.json"), "w"), indent=0)
     surv = [m for m in results if m["suite"] == "survives"]
     json.dump(results, open(os.path.join(OUT, "phase1.json"), "w"), indent=0)
     json.dump(surv, open(os.path.join(OUT, "survivors.json"), "w"), indent=0)
